@@ -43,6 +43,8 @@ CONSTANTS Caps,        \* buffer capacities explored (runtime.DefaultBufferSize)
           Pairs,       \* TRUE: also plans with a writer fault AND a failing expression / leaf
           SWs,         \* is the underlying writer an io.StringWriter (bufio's WriteString shortcut)
           PoolAny,     \* TRUE: Get returns any pooled object or a new one; FALSE: a pooled one if there is one
+          SameWriter,  \* TRUE: all renders of a behaviour go to ONE writer value, which recovers (and is emptied) between them;
+                       \* FALSE: every render has a writer of its own
           Bug,         \* "none" or the name of a seeded defect (negative configs)
           Emit         \* TRUE: print every terminal behaviour for replay on the real code
 
@@ -194,7 +196,7 @@ BW(bs, ws, s, direct, cap, f) ==
 \* a writer reference: a *runtime.Buffer object (t = "buf") or a plain io.Writer (t = "w")
 BufRef(b) == [t |-> "buf", id |-> b]
 WRef(w) == [t |-> "w", id |-> w]
-SideW == Runs + 1                      \* the collecting component's own writer
+SideW == Runs + run                    \* the collecting component's own writer (a new value in every render)
 NBufs == 2 * Runs + 2                  \* buffer objects that can exist (renders and blocks rendered into the side writer may each make new ones)
 
 \* wr = the writer the component was called with; fb = the buffer it writes to (after GetBuffer)
@@ -217,7 +219,9 @@ Pop == SubSeq(stack, 1, Len(stack) - 1)
 
 \* the fault applies to this render's writer only; a buffer that (through a bug) still points at an
 \* older writer writes there unhindered
-FaultOf(w) == IF w = run THEN plan.w ELSE IF w = SideW THEN plan.s ELSE NoW
+\* the writer value render number r is given
+WId(r) == IF SameWriter THEN 1 ELSE r
+FaultOf(w) == IF w = WId(run) THEN plan.w ELSE IF w = SideW THEN plan.s ELSE NoW
 \* what the top frame passes on as io.Writer: the buffer it writes to
 Down == BufRef(Top.fb)
 First(e) == IF first = "nil" THEN e ELSE first
@@ -230,7 +234,7 @@ Init == /\ \E cap \in Caps, p \in ProgSet :
         /\ run = 1 /\ phase = "pick" /\ plan = NoPlan
         /\ stack = <<>> /\ ret = "nil"
         /\ bufs = [i \in 1..NBufs |-> CleanBuf(0)] /\ cur = {} /\ pool = {} /\ nfresh = 0
-        /\ W = [i \in 1..(Runs + 1) |-> IF i = SideW THEN NewSideW ELSE NewW]
+        /\ W = [i \in 1..(2 * Runs) |-> IF i > Runs THEN NewSideW ELSE NewW]
         /\ slot = NoChild /\ cancelled = FALSE /\ evals = 0 /\ leafs = 0
         /\ first = "nil" /\ late = FALSE /\ pev = <<>> /\ hist = <<>>
         /\ lbl = "Init"
@@ -245,11 +249,12 @@ StartRender ==
           /\ plan' = p
           /\ cancelled' = (p.l.k = "cancel")
     /\ phase' = "run"
-    /\ stack' = <<InterpFrame(cfg.prog, WRef(run))>>
+    /\ stack' = <<InterpFrame(cfg.prog, WRef(WId(run)))>>
     /\ ret' = "nil" /\ slot' = NoChild /\ evals' = 0 /\ leafs' = 0 /\ first' = "nil" /\ late' = FALSE
     /\ pev' = <<>>
     /\ lbl' = "StartRender"
-    /\ W' = [W EXCEPT ![SideW] = NewSideW]          \* a collecting component makes its writer anew
+    \* a collecting component makes its writer anew; a writer that is rendered to again has recovered and is observed afresh
+    /\ W' = [W EXCEPT ![SideW] = NewSideW, ![WId(run)] = NewW]
     /\ UNCH(<<cfg, run, bufs, cur, pool, nfresh, hist>>)
 
 Running == phase = "run" /\ stack # <<>>
@@ -271,7 +276,9 @@ AcquireBuffer ==
             /\ UNCH(<<bufs, cur, pool, nfresh>>)
        ELSE \E b \in (IF PoolAny \/ pool = {} THEN pool \cup (IF nfresh < NBufs THEN {nfresh + 1} ELSE {}) ELSE pool) :
             LET fresh == b = nfresh + 1 IN
-            /\ bufs' = [bufs EXCEPT ![b] = IF fresh \/ Bug # "noreset" THEN CleanBuf(Top.wr.id) ELSE @]
+            \* "noreset": pooled buffers are not Reset; "resetunlesssame": not when b.Underlying is the writer already
+            /\ bufs' = [bufs EXCEPT ![b] = IF fresh \/ (Bug # "noreset" /\ ~(Bug = "resetunlesssame" /\ @.wr = Top.wr.id))
+                                            THEN CleanBuf(Top.wr.id) ELSE @]
             /\ cur' = cur \cup {b} /\ pool' = pool \ {b}
             /\ nfresh' = IF fresh THEN nfresh + 1 ELSE nfresh
             \* "blocknorelease": the closure of a block has no deferred release (it never owns what it acquired)
@@ -460,8 +467,8 @@ DeferredPut ==
 \* Render has returned to the caller
 EndRender ==
     /\ phase = "run" /\ stack = <<>>
-    /\ hist' = Append(hist, [plan |-> plan, res |-> ret, sink |-> W[run].sink, fired |-> W[run].dead, sfired |-> W[SideW].dead, left |-> Cardinality(cur),
-                             uf |-> W[run].uf, pev |-> pev, evals |-> evals, leafs |-> leafs, first |-> first])
+    /\ hist' = Append(hist, [plan |-> plan, res |-> ret, sink |-> W[WId(run)].sink, fired |-> W[WId(run)].dead, sfired |-> W[SideW].dead, left |-> Cardinality(cur),
+                             uf |-> W[WId(run)].uf, pev |-> pev, evals |-> evals, leafs |-> leafs, first |-> first])
     /\ IF run = Runs THEN phase' = "done" /\ UNCH(run) ELSE phase' = "pick" /\ run' = run + 1
     /\ lbl' = "EndRender"
     /\ UNCH(<<pev, cfg, plan, stack, ret, bufs, cur, pool, nfresh, W, slot, cancelled, evals, leafs, first, late>>)
@@ -525,6 +532,6 @@ TypeOK == /\ run \in 1..Runs /\ phase \in {"pick", "run", "done"}
 
 (* every terminal behaviour, for the replay on real generated code *)
 PrintCase == (Emit /\ phase = "done") =>
-                PrintT(<<"CASE", ToJson([cap |-> cfg.cap, sw |-> cfg.sw, prog |-> cfg.prog, doc |-> cfg.doc,
+                PrintT(<<"CASE", ToJson([cap |-> cfg.cap, sw |-> cfg.sw, same |-> SameWriter, prog |-> cfg.prog, doc |-> cfg.doc,
                                          nev |-> cfg.nev, nleaf |-> cfg.nleaf, runs |-> hist])>>)
 =============================================================================
